@@ -94,20 +94,22 @@ func cases(mock bool) []readCase {
 	}
 	// Batch gets that one region's key group cannot carry in a single request: the snapshot cuts a
 	// group after 5120 keys (batchGetSize), so 5130 absent filler keys (sorting directly after a or
-	// c) in front of, between or behind the real keys make two sub-requests with different contents
+	// c) in front of, around (the cut falls between two real keys) or behind the real keys make two sub-requests with different contents
 	// whatever the region layout.
 	for _, p := range []string{"a", "c"} {
 		var fill []string
 		for i := 0; i < 5130; i++ {
 			fill = append(fill, fmt.Sprintf("%s\x00%04d", p, i))
 		}
-		for _, shape := range []string{"front", "middle", "back"} {
+		for _, shape := range []string{"front", "cut", "back"} {
 			var ks3 []string
 			switch shape {
 			case "front":
 				ks3 = append(append(ks3, fill...), all...)
-			case "middle":
-				ks3 = append(append(append(ks3, "a", "b"), fill...), "c", "d")
+			case "cut":
+				// the real keys sit on both sides of the cut (index batchGetSize-1 / batchGetSize of
+				// the group) when they share the fillers' region
+				ks3 = append(append(append(ks3, fill[:5119]...), all...), fill[5119:]...)
 			case "back":
 				ks3 = append(append(ks3, all...), fill...)
 			}
@@ -592,6 +594,12 @@ func readGrid(s *txnh.TxnScenario, mock bool) []sched.Violation {
 		for ti, ts := range tss {
 			snap := c.Store.GetSnapshot(ts)
 			for _, cas := range cs {
+				if !cas.scan {
+					// point and batch gets also on a snapshot of their own: on the shared one the keys
+					// are cached after the first few cases and later batch gets never reach the wire
+					v0, o0, err0 := safeRun(cas, c.Store.GetSnapshot(ts))
+					observed = append(observed, obs{cas, ts, v0, o0, err0, "cold-own-snapshot"})
+				}
 				v, o, err := safeRun(cas, snap)
 				observed = append(observed, obs{cas, ts, v, o, err, "cold"})
 				v2, o2, err2 := safeRun(cas, snap)
